@@ -507,16 +507,60 @@ impl PairEngine {
         }
     }
 
-    fn exec_op(&mut self, ws: &[&str], mon: &mut Monitor) -> String {
+    fn exec_op(&mut self, ws0: &[&str], mon: &mut Monitor) -> String {
         let n = self.nusers;
         let w = self.w.as_mut().unwrap();
         let c01 = c01_tag(w);
-        let pre = w.observe();
+        let pre0 = w.observe();
         let user = |s: &str| s.parse::<usize>().ok().filter(|u| *u < n);
+        // `fund u which amt <op…>`: the message `<op…>` (collect / setfees / setcol — the messages that
+        // take no funds) is sent with `amt` of native asset `which` attached, paid by user `u`. The
+        // coins land on the pair like a donation; nothing else may follow from them.
+        let (stray, ws): (Option<(usize, usize, u128)>, &[&str]) = if ws0[0] == "fund" {
+            if ws0.len() < 5 {
+                return "bad-op".into();
+            }
+            match (user(ws0[1]), ws0[2].parse::<usize>(), ws0[3].parse::<u128>()) {
+                (Some(u), Ok(k), Ok(a)) if k < 2 && w.kinds[k] && matches!(ws0[4], "collect" | "setfees" | "setcol") => {
+                    // a user-sent inner message must be sent by the payer
+                    if ws0[5..].first().map(|x| *x != "o").unwrap_or(true) {
+                        let inner = ws0[5].strip_prefix('u').unwrap_or(ws0[5]);
+                        if user(inner) != Some(u) {
+                            return "bad-op".into();
+                        }
+                    }
+                    (Some((u, k, a)), &ws0[4..])
+                }
+                _ => return "bad-op".into(),
+            }
+        } else {
+            (None, ws0)
+        };
+        let mut pre = pre0.clone();
+        let mut sf: Vec<Coin> = vec![];
+        let mut owner_funded = false;
+        if let Some((u, k, a)) = stray {
+            if a > 0 {
+                sf.push(coin(a, w.denoms[k]));
+            }
+            if pre.users[u][k] >= a {
+                pre.users[u][k] -= a;
+                pre.bal[k] += a;
+                if let Some(pl) = pre.pool.as_mut() {
+                    pl[k] += a;
+                }
+            }
+            if ws.len() > 1 && ws[1] == "o" && a > 0 {
+                // the owner holds no coins: the payer hands them over first (returned if the message fails)
+                let (from, to) = (w.users[u].clone(), w.owner.clone());
+                owner_funded = w.app.send_tokens(from, to, &sf).is_ok();
+            }
+            mon.stat("stray_funds_attached");
+        }
         let pair = w.pair.clone();
         let mut lastp = None;
         let prev_provide = self.last_provide.take();
-        let op = ws.join(" ");
+        let op = ws0.join(" ");
         let d = |s: String| move || s;
         let out: Outcome<AppResponse> = match (ws[0], ws.len()) {
             ("provide", 7) => {
@@ -649,7 +693,7 @@ impl PairEngine {
                 };
                 let sender = w.users[u].clone();
                 let app = &mut w.app;
-                let o = guarded(|| app.execute_contract(sender.clone(), pair.clone(), &p::ExecuteMsg::CollectProtocolFees {}, &[]));
+                let o = guarded(|| app.execute_contract(sender.clone(), pair.clone(), &p::ExecuteMsg::CollectProtocolFees {}, &sf));
                 if let Outcome::Ok(_) = &o {
                     let post = w.observe();
                     for k in 0..2 {
@@ -700,7 +744,7 @@ impl PairEngine {
                         sender.clone(),
                         pair.clone(),
                         &p::ExecuteMsg::UpdateConfig { owner: None, fee_collector_addr: None, pool_fees: Some(pool_fee(f[0], f[1], f[2])), feature_toggle: None },
-                        &[],
+                        &sf,
                     )
                 });
                 if let Outcome::Ok(_) = &o {
@@ -728,7 +772,7 @@ impl PairEngine {
                         sender.clone(),
                         pair.clone(),
                         &p::ExecuteMsg::UpdateConfig { owner: None, fee_collector_addr: Some(target.clone()), pool_fees: None, feature_toggle: None },
-                        &[],
+                        &sf,
                     )
                 })
             }
@@ -831,8 +875,12 @@ impl PairEngine {
             }
             _ => return "bad-op".into(),
         };
-        let post = w.observe();
         let ok = matches!(out, Outcome::Ok(_));
+        if owner_funded && !ok {
+            let (from, to) = (w.owner.clone(), w.users[stray.unwrap().0].clone());
+            let _ = w.app.send_tokens(from, to, &sf);
+        }
+        let post = w.observe();
         // ---- C07 burned amounts leave circulation / nothing else is created or destroyed
         if ok && ws[0] != "swap" && ws[0] != "swapbad" {
             mon.check("C07", "pair_only_swaps_charge", post.all == pre.all && post.burn == pre.burn && post.tot == pre.tot && (ws[0] == "collect" || (post.pend == pre.pend && post.col == pre.col && post.colb == pre.colb)), d(format!("{op}: {pre:?} -> {post:?}")));
@@ -858,7 +906,7 @@ impl PairEngine {
             });
             mon.check("C07", "pair_nothing_else_moves", bystanders_ok, d(format!("{op}: users {:?} -> {:?}", pre.users, post.users)));
         }
-        Self::monitor_common(w, mon, &op, ok, &pre, &post);
+        Self::monitor_common(w, mon, &op, ok, if ok { &pre } else { &pre0 }, &post);
         self.last_provide = lastp;
         mon.stat(&format!("{}_{}", ws[0], status(&out)));
         format!("{} {}", status(&out), w.show(&post))
@@ -1118,15 +1166,31 @@ impl PairEngine {
                 _ => rng.amount(100),
             };
             format!("withdraw {u} {amt}")
-        } else if x < 120 {
-            format!("collect {u}")
-        } else if x < 122 {
-            let who = if rng.chance(5, 6) { "o".to_string() } else { format!("u{u}") };
-            format!("setcol {who} {}", rng.below(2))
         } else if x < 125 {
-            let who = if rng.chance(5, 6) { "o".to_string() } else { format!("u{u}") };
-            let (a, b, c) = if rng.chance(4, 5) { rng.valid_fees() } else { (rng.fee_share(), E18 - rng.below(3) as u128, rng.fee_share()) };
-            format!("setfees {who} {a} {b} {c}")
+            // messages that take no funds — now and then sent with coins attached all the same
+            let natives: Vec<usize> = (0..2).filter(|k| w.kinds[*k]).collect();
+            let stray = if !natives.is_empty() && rng.chance(1, 4) {
+                let k = natives[rng.below(natives.len() as u64) as usize];
+                let amt = match rng.below(6) {
+                    0 => o.users[u][k].saturating_add(1),
+                    1 => 1,
+                    2 => THRESHOLD + 1,
+                    _ => rng.amount(60).min(o.users[u][k]).max(1),
+                };
+                format!("fund {u} {k} {amt} ")
+            } else {
+                String::new()
+            };
+            if x < 120 {
+                format!("{stray}collect {u}")
+            } else if x < 122 {
+                let who = if rng.chance(5, 6) { "o".to_string() } else { format!("u{u}") };
+                format!("{stray}setcol {who} {}", rng.below(2))
+            } else {
+                let who = if rng.chance(5, 6) { "o".to_string() } else { format!("u{u}") };
+                let (a, b, c) = if rng.chance(4, 5) { rng.valid_fees() } else { (rng.fee_share(), E18 - rng.below(3) as u128, rng.fee_share()) };
+                format!("{stray}setfees {who} {a} {b} {c}")
+            }
         } else {
             let which = rng.below(3);
             let amt = match which {
